@@ -462,6 +462,13 @@ def run(tier: str, seed: int) -> list[Part]:
     p17.notes.append("with the pinned-commit rule (a failed backtrack rebuilds a payloaded transfer) TLC re-derives finding F17 "
                      "(ProcessedBaseSound violated)")
     parts.append(p17)
+    kf18 = run_tlc("MC_Multi.tla", "MultiKF18.cfg", expect_violation=True, heap="3g")
+    if kf18.violated not in ("ContentKept", "ColumnsKept"):
+        raise MachineryError(f"companion MultiKF18 (backtrack_unary as at the pinned commit) no longer violates ContentKept/ColumnsKept (got {kf18.violated})")
+    p18 = Part(name="multiengine:F18-companion", cfg="MultiKF18.cfg", states=max(kf18.distinct, 1), transitions=max(kf18.generated, 1))
+    p18.notes.append("with the pinned-commit rule (the commuted operation replaces the current one only when the upstream changed) TLC re-derives "
+                     "finding F18: a projection that is a no-op upstream of a calculation is lost")
+    parts.append(p18)
     kf = run_tlc("MC_Multi.tla", "MultiKF2.cfg", expect_violation=True, heap="3g")
     if kf.violated != "KF2Gone":
         raise MachineryError(f"companion MultiKF2 no longer violates KF2Gone (got {kf.violated})")
